@@ -1,0 +1,41 @@
+//go:build verif
+
+// Machine-checked contracts (gowp, see /verif/DESIGN.md). Comment-only file:
+// nothing here is compiled into the package.
+
+package isaacblock
+
+// ---- C15: importing a block range stores every block ---------------------------
+//
+// nsaved counts the importers whose Save completed (through saveImporters).
+
+//@ ghost nsaved int
+
+// assumed (its body runs a job worker and deferred functions, outside the
+// verified subset): a nil result means every importer it was given was saved
+//@ func saveImporters
+//@   trusted
+//@   requires forall(k, 0 <= k && k < len(ims) ==> ims[k] != nil)
+//@   modifies ghost:nsaved
+//@   ensures r0 == nil ==> len(ims) >= 1 && nsaved == old(nsaved) + len(ims)
+
+// assumed: importing one block touches nothing the caller owns
+//@ func importBlock
+//@   trusted
+//@   modifies *
+
+//@ lemma aligned_mod (C15): forall(a, x, m, trigger(x % m, a % m), m > 0 && a % m == 0 && a <= x && x < a + m ==> x % m == x - a)
+//@ lemma aligned_next (C15): forall(a, m, trigger((a + m) % m), m > 0 && a % m == 0 ==> (a + m) % m == 0)
+
+//@ func ImportBlocks
+//@   prop C15
+//@   use aligned_mod, aligned_next
+//@   requires from >= 0 && to >= from && to < 4611686018427387904
+//@   requires batchlimit >= 1 && batchlimit < 4611686018427387904
+//@   requires blockMapf != nil && newBlockImporter != nil
+//@   fnparam newBlockImporter ensures r1 == nil ==> r0 != nil
+//@   hof BatchWork#0 outer invariant bstart == 0 ==> ims == nil && nsaved == old(nsaved)
+//@   hof BatchWork#0 outer invariant bstart > 0 ==> ims != nil && len(ims) == batchlimit && nsaved == old(nsaved) + bstart - batchlimit && forall(k, 0 <= k && k < len(ims) ==> ims[k] != nil)
+//@   hof BatchWork#0 inner invariant ims != nil && nsaved == old(nsaved) + bstart && len(ims) == blast - bstart + 1
+//@   hof BatchWork#0 inner invariant forall(k, 0 <= k && k < len(ims) && bdone[bstart + k] ==> ims[k] != nil)
+//@   ensures [all-saved] r0 == nil ==> nsaved == old(nsaved) + (to - from + 1)
